@@ -27,21 +27,26 @@ def plan(tier):
     pl.units.append(U("A6.reassign.HasflagCommand", "contracts.arglayer", "h_reassign", ("HasflagCommand",), native_ok=True, sample_models=True))
     pl.units.append(U("U.addchild", "contracts.arglayer", "h_addchild", (), native_ok=True, sample_models=True))
 
+    pl.units += common.pushdown_units()
+
     def lf(u, label):
+        if u.uid.startswith("PD."):
+            return label.startswith(("P1.", "P2.", "P3.", "P4.", "P5.", "P6.", "P7."))
         return label.startswith(("record.", "optpos.", "addchild.")) or label in ("reject.frame", "inv")
 
     pl.label_filter = lf
     pl.bounded = [bounded_tokens, bounded_generated]
     pl.functions = common.ARG_FUNCTIONS + [("sievelib.commands", "Command.addchild"),
-                                           ("sievelib.commands", "HasflagCommand.reassign_arguments")]
+                                           ("sievelib.commands", "HasflagCommand.reassign_arguments")] + common.PUSHDOWN_FUNCTIONS
     pl.trusted = [common.TRUSTED_LOWER, "independent reference tree builder bounded/sieve_ref.py (oracle of the bounded part)"]
-    pl.unverified = ["attachment of finished commands/tests to their parent by Parser.__up / __check_command_completion: BOUNDED only "
-                     "(tree equality with the reference builder on the enumerated domain)"]
+    pl.unverified = ["the COMPOSITION of the push-down steps over a whole token sequence (attachment of finished commands/tests to the "
+                     "right parent): each step function is under contract (PD), their composition is BOUNDED only (tree equality with "
+                     "the reference builder on the enumerated domain)"]
     pl.explanation = (
         "Deductive: the recording frame of check_next_arg for every class/state/type/value -- an accepted argument updates "
         "exactly one of arguments[slot], extra_arguments[tag slot], or appends to the test list, with the value given, and "
         "nothing else changes; rejected arguments record nothing; with add=False nothing is recorded; addchild appends "
         "exactly the child. The optional positional of setflag/addflag/removeflag/hasflag is checked at sequence level (two "
         "strings must both be recorded) and is REFUTED there (known finding). Bounded: tree equality with the reference "
-        "builder on token sequences up to 4/5 and generated scripts.")
+        "builder on token sequences up to 4/5 and generated scripts." + common.PUSHDOWN_TEXT)
     return pl
